@@ -76,12 +76,16 @@ static const char * vh_inet_ntop(int af, const void * src, char * dst, socklen_t
 }
 static int fmt_bad;
 #define FCAP 64
+/* %d with the number of digits fixed by the harness (fmt_digits): the formatted length stays a constant for symex;
+ * fmt_bad is raised if the value does not have exactly that many digits (the harness assumes it does and checks) */
+static int fmt_digits = 1; static size_t fmt_slen;	/* %s: length of the argument, fixed by the harness and verified */
 static size_t put_d(char * o, size_t n, int v)
 {
-	char t[12]; int k = 0; unsigned u = v < 0 ? 0u - (unsigned)v : (unsigned)v;
-	if (v < 0) { if (n < FCAP) o[n] = '-'; n++; }
-	do { t[k++] = (char)('0' + u % 10); u /= 10; } while (u && k < 11);
-	while (k > 0) { k--; if (n < FCAP) o[n] = t[k]; n++; }
+	unsigned u = (unsigned)v, p10 = 1;
+	if (v < 0) fmt_bad = 1;
+	for (int k = 1; k < fmt_digits; k++) p10 *= 10;
+	if (u < (fmt_digits > 1 ? p10 : 0) || u / p10 > 9) fmt_bad = 1;
+	for (int k = 0; k < fmt_digits; k++) { if (n < FCAP) o[n] = (char)('0' + (u / p10) % 10); n++; p10 /= 10; }
 	return n;
 }
 int libcperciva_asprintf(char ** ret, const char * fmt, ...)
@@ -91,8 +95,14 @@ int libcperciva_asprintf(char ** ret, const char * fmt, ...)
 	for (size_t i = 0; fmt[i] != 0; i++) {
 		if (fmt[i] != '%') { if (n < FCAP) t[n] = fmt[i]; n++; continue; }
 		i++;
-		if (fmt[i] == 's') { const char * s = va_arg(ap, const char *); for (size_t j = 0; s[j] != 0; j++) { if (n < FCAP) t[n] = s[j]; n++; } }
-		else if (fmt[i] == 'd') n = put_d(t, n, va_arg(ap, int));
+		if (fmt[i] == 's') { const char * s = va_arg(ap, const char *); for (size_t j = 0; j < fmt_slen; j++) { if (s[j] == 0) fmt_bad = 1; if (n < FCAP) t[n] = s[j]; n++; } if (s[fmt_slen] != 0) fmt_bad = 1; }
+		else if (fmt[i] == 'd') {
+#ifdef VH_CBMC
+			n = put_d(t, n, (int)va_arg(ap, uint16_t));	/* the only %d here prints ntohs(port), a uint16_t; CBMC passes variadic arguments unpromoted */
+#else
+			n = put_d(t, n, va_arg(ap, int));
+#endif
+		}
 		else fmt_bad = 1;
 	}
 	va_end(ap);
@@ -338,51 +348,61 @@ void h_v6(void)
 #ifndef FAM
 #define FAM 4
 #endif
+#ifndef PDIG
+#define PDIG 2
+#endif
 void h_pretty(void)
 {
 	struct sock_addr sa; sa.ai_socktype = SOCK_STREAM;
 	size_t k = nd_size();
+#if FAM != 1
+	uint16_t port = nd_u16();	/* host order; exactly PDIG decimal digits, 1..65535 */
+	{ unsigned lo = 1; for (int q = 1; q < PDIG; q++) lo *= 10; ASSUME(port >= lo && (PDIG == 5 || port < lo * 10)); }
+	fmt_digits = PDIG; fmt_slen = NTLEN;
+#endif
 #if FAM == 4
-	struct sockaddr_in a; memset(&a, 0, sizeof(a)); a.sin_family = AF_INET; a.sin_port = nd_u16(); for (int i = 0; i < 4; i++) ((uint8_t *)&a.sin_addr)[i] = nd_u8();
-	ASSUME(a.sin_port != 0);
+	struct sockaddr_in a; memset(&a, 0, sizeof(a)); a.sin_family = AF_INET; a.sin_port = htons(port); for (int i = 0; i < 4; i++) ((uint8_t *)&a.sin_addr)[i] = nd_u8();
 	sa.ai_family = AF_INET; sa.name = (struct sockaddr *)&a; sa.namelen = sizeof(a);
-	const size_t AL = 4, NL = sizeof(a);
+	const size_t AL = 4, NL = sizeof(a), SL = 1 + NTLEN + 2 + PDIG;
 #elif FAM == 6
-	struct sockaddr_in6 a; memset(&a, 0, sizeof(a)); a.sin6_family = AF_INET6; a.sin6_port = nd_u16(); for (int i = 0; i < 16; i++) ((uint8_t *)&a.sin6_addr)[i] = nd_u8();
-	ASSUME(a.sin6_port != 0);
+	struct sockaddr_in6 a; memset(&a, 0, sizeof(a)); a.sin6_family = AF_INET6; a.sin6_port = htons(port); for (int i = 0; i < 16; i++) ((uint8_t *)&a.sin6_addr)[i] = nd_u8();
 	sa.ai_family = AF_INET6; sa.name = (struct sockaddr *)&a; sa.namelen = sizeof(a);
-	const size_t AL = 16, NL = sizeof(a);
+	const size_t AL = 16, NL = sizeof(a), SL = 1 + NTLEN + 2 + PDIG;
 #else
 	struct sockaddr_un a; memset(&a, 0, sizeof(a)); a.sun_family = AF_UNIX; a.sun_path[0] = '/';
-	for (size_t i = 1; i < NTLEN; i++) { a.sun_path[i] = (char)nd_u8(); ASSUME(a.sun_path[i] != 0); }
+	int nz = 1;
+	for (size_t i = 1; i < NTLEN; i++) { a.sun_path[i] = (char)nd_u8(); if (a.sun_path[i] == 0) nz = 0; }
+	ASSUME(nz);
 	sa.ai_family = AF_UNIX; sa.name = (struct sockaddr *)&a; sa.namelen = sizeof(a);
 	sd_hint = NTLEN;
-	const size_t NL = sizeof(a);
+	const size_t NL = sizeof(a), SL = NTLEN;
 #endif
 #if FAM != 1
 	/* inet_ntop contract: a string of NTLEN characters from the literal alphabet (IPv6: with at least one ':'), which inet_pton maps back to the same bytes */
-	nt_len = NTLEN; int colon = 0;
+	nt_len = NTLEN; int colon = 0, alpha = 1;
 	for (size_t i = 0; i < NTLEN; i++) {
 		uint8_t ch = nd_u8();
-		ASSUME((ch >= '0' && ch <= '9') || ch == '.' || (FAM == 6 && ((ch >= 'a' && ch <= 'f') || ch == ':')));
+		if (!((ch >= '0' && ch <= '9') || ch == '.' || (FAM == 6 && ((ch >= 'a' && ch <= 'f') || ch == ':')))) alpha = 0;
 		if (ch == ':') colon = 1;
 		nt_str[i] = (char)ch;
 	}
-	ASSUME(FAM == 4 || colon);
+	ASSUME(alpha && (FAM == 4 || colon));
 #endif
 	char * s = sock_addr_prettyprint(&sa);
 	CHECK(s != NULL, "printable address => string");
 	if (s == NULL) return;
-	sd_hint = (size_t)-1;
+	CHECK(!fmt_bad && !sd_bad, "harness: formatter / strdup models saw the lengths they were told");
+#ifdef VH_CBMC
+	CHECK(__CPROVER_OBJECT_SIZE(s) == SL + 1, "printed string is an exact-size object");
+#endif
+	CHECK(s[SL] == 0, "printed string has the expected length");
 #if FAM != 1
 	CHECK(nt_calls == 1 && nt_af == (FAM == 4 ? AF_INET : AF_INET6), "inet_ntop called once with the address's family");
 	if (k < AL) CHECK(nt_in[k] == ((uint8_t *)&a)[(FAM == 4 ? 4 : 8) + k], "inet_ntop given the address bytes");
 	/* inet_pton is the inverse of inet_ntop on its output */
 	pt_ret = 1; for (size_t i = 0; i < AL; i++) pt_out[i] = nt_in[i];
 #endif
-	/* the string handed back is a fresh exact-size object; resolve it */
-	size_t sl = 0; while (s[sl] != 0) sl++;
-	sd_hint = sl;
+	sd_hint = SL; sd_bad = 0;
 	struct sock_addr ** res = sock_resolve(s);
 	CHECK(!sd_bad, "harness: strdup model saw the string length it assumed");
 	CHECK(res != NULL && res[0] != NULL && res[1] == NULL, "printed address resolves to exactly one address");
